@@ -431,10 +431,16 @@ func writeKeyPair(dir, name string, l leaf) (string, string) {
 }
 
 func handshake(scfg *tls.Config, client *leaf, serverCA *ca) (accepted bool, serverErr error) {
+	return handshakeCache(scfg, client, serverCA, nil)
+}
+
+// handshakeCache is handshake with a client-side session cache: a session ticket obtained from one
+// server configuration is offered to the next one (same server name).
+func handshakeCache(scfg *tls.Config, client *leaf, serverCA *ca, cache tls.ClientSessionCache) (accepted bool, serverErr error) {
 	cc, sc := net.Pipe()
 	defer cc.Close()
 	defer sc.Close()
-	ccfg := &tls.Config{ServerName: "server.test", RootCAs: x509.NewCertPool(), MinVersion: tls.VersionTLS12}
+	ccfg := &tls.Config{ServerName: "server.test", RootCAs: x509.NewCertPool(), MinVersion: tls.VersionTLS12, ClientSessionCache: cache}
 	ccfg.RootCAs.AddCert(serverCA.cert)
 	if client != nil {
 		c := client.cert
@@ -631,6 +637,156 @@ func runTLSBinaries(r *evid.Run, bin string) {
 	}
 }
 
+// runResumption: every ordered pair (A, B) of the server configurations built from the SAME
+// certificate and key (as the endpoints of one node are, or one endpoint before and after its
+// trust settings were tightened) x every client certificate: the client first visits A with a
+// session cache, then B with the same cache. B's verdict must be its verdict for a fresh
+// handshake: a session obtained elsewhere must not carry a client past B's CA / CN / hostname rules.
+type builtCfg struct {
+	desc string
+	cfg  *tls.Config
+	// should: whether a fresh handshake of the leaf must be accepted (nil = the property is silent)
+	should func(l *leaf) *bool
+}
+
+// runTLSResumeBinary: one real leader whose two TLS endpoints use the same certificate and key but
+// different rules - replication: trusted CA only; client API: trusted CA + allowed CN. A client the
+// API must refuse first talks to the replication endpoint (accepted there) and then, with the same
+// TLS session cache, to the API.
+func runTLSResumeBinary(r *evid.Run, bin string) {
+	right, wrong := newCA("right-ca"), newCA("wrong-ca")
+	leaves := tlsLeaves(right, wrong)
+	srv := newLeaf("server", right, "right", "server.test", []string{"server.test"}, nil, true)
+	dir, err := os.MkdirTemp("", "verif-c17-tlsres-")
+	if err != nil {
+		r.Inconcl.Add(1)
+		return
+	}
+	defer os.RemoveAll(dir)
+	caFile := filepath.Join(dir, "ca.crt")
+	_ = os.WriteFile(caFile, right.pem, 0o600)
+	scf, skf := writeKeyPair(dir, "server", srv)
+	apiPort, replPort := freePort(), freePort()
+	raft := fmt.Sprintf("127.0.0.1:%d", freePort())
+	args := []string{"leader",
+		"--api.address", fmt.Sprintf("https://127.0.0.1:%d", apiPort),
+		"--api.cert-filename", scf, "--api.key-filename", skf, "--api.ca-filename", caFile, "--api.allowed-cn", cn,
+		"--replication.address", fmt.Sprintf("https://127.0.0.1:%d", replPort),
+		"--replication.cert-filename", scf, "--replication.key-filename", skf, "--replication.ca-filename", caFile,
+		"--rest.address", fmt.Sprintf("http://127.0.0.1:%d", freePort()),
+		"--raft.address", raft, "--raft.initial-members", "1=" + raft,
+		"--raft.node-host-dir", filepath.Join(dir, "nh"), "--raft.state-machine-dir", filepath.Join(dir, "sm"),
+		"--raft.rtt", "5ms", "--raft.election-rtt", "10",
+		"--memberlist.address", fmt.Sprintf("127.0.0.1:%d", freePort()),
+		"--log-level", "ERROR",
+	}
+	cmd := exec.Command(bin, args...)
+	logf := filepath.Join(dir, "leader.log")
+	f, _ := os.Create(logf)
+	cmd.Stdout, cmd.Stderr = f, f
+	cmd.Dir = dir
+	if err := cmd.Start(); err != nil {
+		r.Inconcl.Add(1)
+		return
+	}
+	defer func() {
+		_ = cmd.Process.Signal(os.Interrupt)
+		done := make(chan struct{})
+		go func() { _ = cmd.Wait(); close(done) }()
+		select {
+		case <-done:
+		case <-time.After(10 * time.Second):
+			_ = cmd.Process.Kill()
+			<-done
+		}
+	}()
+	call := func(port int, l *leaf, replication bool, cache tls.ClientSessionCache) bool {
+		ccfg := &tls.Config{ServerName: "server.test", RootCAs: x509.NewCertPool(), MinVersion: tls.VersionTLS12, ClientSessionCache: cache}
+		ccfg.RootCAs.AddCert(right.cert)
+		if l != nil {
+			c := l.cert
+			ccfg.GetClientCertificate = func(*tls.CertificateRequestInfo) (*tls.Certificate, error) { return &c, nil }
+		}
+		conn, err := grpc.NewClient(fmt.Sprintf("127.0.0.1:%d", port), grpc.WithTransportCredentials(credentials.NewTLS(ccfg)))
+		if err != nil {
+			return false
+		}
+		defer conn.Close()
+		ctx, cancel := context.WithTimeout(context.Background(), 5*time.Second)
+		defer cancel()
+		if replication {
+			_, err = regattapb.NewMetadataClient(conn).Get(ctx, &regattapb.MetadataRequest{})
+		} else {
+			_, err = regattapb.NewClusterClient(conn).Status(ctx, &regattapb.StatusRequest{})
+		}
+		c := status.Code(err)
+		return c != codes.Unavailable && c != codes.DeadlineExceeded
+	}
+	var good *leaf
+	for _, l := range leaves {
+		if l != nil && l.name == "rightCA/rightCN" {
+			good = l
+		}
+	}
+	ready := false
+	for deadline := time.Now().Add(60 * time.Second); time.Now().Before(deadline); time.Sleep(100 * time.Millisecond) {
+		if call(apiPort, good, false, nil) && call(replPort, good, true, nil) {
+			ready = true
+			break
+		}
+	}
+	if !ready {
+		r.Inconcl.Add(1)
+		return
+	}
+	for _, l := range leaves {
+		if l == nil || l.chainsTo != "right" || l.x.Subject.CommonName == cn {
+			continue
+		}
+		cache := tls.NewLRUClientSessionCache(4)
+		// twice: TLS 1.3 tickets arrive after the handshake, the second call certainly has one
+		first := call(replPort, l, true, cache) && call(replPort, l, true, cache)
+		if !first {
+			r.Violate("tlsbin/replication-endpoint-rejects-right-client/"+l.name+"/allow=ca-only", "trusted CA only: client "+l.name+" refused", map[string]any{"kind": "tlsbin", "client": l.name})
+			continue
+		}
+		accepted := call(apiPort, l, false, cache)
+		r.Outcome(fmt.Sprint("tlsbin-resume", l.name, accepted), true)
+		r.AddExtra("tls_resumption_calls_to_real_binaries", 1)
+		if accepted {
+			r.Violate("tlsbin/session-from-the-replication-endpoint-bypasses-the-api-endpoint-checks/"+l.name, fmt.Sprintf("regatta leader {api: ca + allowed-cn, replication: ca only, same certificate and key}: client %s, refused by the API on a fresh connection, is answered after visiting the replication endpoint with the same session cache", l.name), map[string]any{"kind": "tlsbin", "client": l.name})
+		}
+	}
+}
+
+func runResumption(r *evid.Run, built []builtCfg, leaves []*leaf, right *ca) {
+	for _, a := range built {
+		for _, b := range built {
+			for _, l := range leaves {
+				want := b.should(l)
+				if want == nil || *want {
+					continue // only clients B must refuse are of interest
+				}
+				cache := tls.NewLRUClientSessionCache(4)
+				first, _ := handshakeCache(a.cfg, l, right, cache)
+				if !first {
+					continue // no session to bring along
+				}
+				accepted, _ := handshakeCache(b.cfg, l, right, cache)
+				name := "no-certificate"
+				if l != nil {
+					name = l.name
+				}
+				r.Outcome(fmt.Sprint("resume", a.desc, b.desc, name, accepted), true)
+				r.AddExtra("tls_resumption_pairs", 1)
+				if accepted {
+					r.Violate("tls/session-from-another-configuration-bypasses-client-checks/"+name, fmt.Sprintf("client %s visited %s first, then %s accepted it although it refuses the same client on a fresh handshake", name, a.desc, b.desc), map[string]any{"kind": "tls", "first": a.desc, "config": b.desc, "client": name})
+				}
+			}
+		}
+	}
+}
+
 func runTLS(r *evid.Run) {
 	dir, err := os.MkdirTemp("", "verif-c17-tls-")
 	if err != nil {
@@ -644,6 +800,8 @@ func runTLS(r *evid.Run) {
 	srv := newLeaf("server", right, "right", "server.test", []string{"server.test"}, nil, true)
 	scf, skf := writeKeyPair(dir, "server", srv)
 	leaves := tlsLeaves(right, wrong)
+	var built []builtCfg
+	defer func() { runResumption(r, built, leaves, right) }()
 	for _, trusted := range []bool{false, true} {
 		for _, cca := range []bool{false, true} {
 			for _, mode := range []string{"none", "cn", "hostname", "ip", "both"} {
@@ -673,6 +831,26 @@ func runTLS(r *evid.Run) {
 				if err != nil {
 					r.Violate("tls/server-config-error", desc+": "+err.Error(), map[string]any{"kind": "tls", "config": desc})
 					continue
+				}
+				{
+					trusted, mode := trusted, mode
+					built = append(built, builtCfg{desc: desc, cfg: scfg, should: func(l *leaf) *bool {
+						if !trusted {
+							return nil
+						}
+						v := l != nil && l.chainsTo == "right"
+						if v {
+							switch mode {
+							case "cn":
+								v = l.x.Subject.CommonName == cn
+							case "hostname":
+								v = l.x.VerifyHostname(host) == nil
+							case "ip":
+								v = l.x.VerifyHostname("10.1.2.3") == nil
+							}
+						}
+						return &v
+					}})
 				}
 				for _, l := range leaves {
 					name := "no-certificate"
@@ -717,14 +895,16 @@ func runTLS(r *evid.Run) {
 
 func Run(r *evid.Run) {
 	r.Check = "c17"
-	r.Rule("tokens: for each token configuration {maintenance only, tables only, both, none} the real `regatta leader` and `regatta follower` binaries (built from the working tree) are started on unix sockets; every method of Tables (Create, Delete, List) and Maintenance (Backup stream, Restore stream, Reset) plus KV.Range and Cluster.Status as controls is called on both nodes with 14 authorization variants (absent, empty, right token under 3 scheme spellings, prefix, suffix, case-changed, trailing/leading space, Basic scheme, scheme only, token only, the other service's token): a configured service answers Unauthenticated to everything but the exact token and nothing changes; the right token is never Unauthenticated; unconfigured and other services are unaffected. TLS: real security.TLSInfo.ServerConfig() handshakes over in-memory pipes for 14 client certificates (no certificate, right/wrong CA, self-signed, CN variants, SAN variants, IP SAN) x {TrustedCAFile} x {ClientCertAuth} x {no restriction, AllowedCN, AllowedHostname, allowed IP, both (must be refused at configuration time)}; reference for hostname validity is x509's VerifyHostname; the same 14 client certificates against the real `regatta leader` process on BOTH its TLS endpoints (client API by flags, replication by flags + config file) for {trusted CA + allowed CN, trusted CA + allowed hostname} x {client-cert-auth default, set}, one real gRPC call each. Non-trivial: all; distinct = distinct (case, outcome)")
+	r.Rule("tokens: for each token configuration {maintenance only, tables only, both, none} the real `regatta leader` and `regatta follower` binaries (built from the working tree) are started on unix sockets; every method of Tables (Create, Delete, List) and Maintenance (Backup stream, Restore stream, Reset) plus KV.Range and Cluster.Status as controls is called on both nodes with 14 authorization variants (absent, empty, right token under 3 scheme spellings, prefix, suffix, case-changed, trailing/leading space, Basic scheme, scheme only, token only, the other service's token): a configured service answers Unauthenticated to everything but the exact token and nothing changes; the right token is never Unauthenticated; unconfigured and other services are unaffected. TLS: real security.TLSInfo.ServerConfig() handshakes over in-memory pipes for 14 client certificates (no certificate, right/wrong CA, self-signed, CN variants, SAN variants, IP SAN) x {TrustedCAFile} x {ClientCertAuth} x {no restriction, AllowedCN, AllowedHostname, allowed IP, both (must be refused at configuration time)}; reference for hostname validity is x509's VerifyHostname; every ordered pair of those configurations (same certificate and key) x every client: a session obtained from the first must not carry a client past the second one's rules; the same 14 client certificates against the real `regatta leader` process on BOTH its TLS endpoints (client API by flags, replication by flags + config file) for {trusted CA + allowed CN, trusted CA + allowed hostname} x {client-cert-auth default, set}, one real gRPC call each; plus one leader whose endpoints share certificate and key but not the rules (replication: CA only, API: CA + allowed CN): a client the API refuses visits the replication endpoint first and then the API with the same TLS session cache. The binary is built with the repository's own toolchain. Non-trivial: all; distinct = distinct (case, outcome)")
 	bin := filepath.Join(evid.VerifDir, ".bin", "regatta-c17")
 	args := []string{"build"}
 	if ov := os.Getenv("VERIF_BUILD_OVERLAY"); ov != "" {
 		args = append(args, "-overlay", ov) // the change under test (if any) applies to the binary too
 	}
 	args = append(args, "-o", bin, ".")
-	build := exec.Command("go1.26.8", args...)
+	// the repository's own toolchain (what a release is built with): the standard library inside the
+	// binary - crypto/tls in particular - is part of what is being checked
+	build := exec.Command("go", args...)
 	build.Dir = "/repo"
 	build.Env = append(os.Environ(), "GOFLAGS=-mod=mod", "GOPROXY=off", "GOSUMDB=off", "GOTOOLCHAIN=local")
 	if out, err := build.CombinedOutput(); err != nil {
@@ -735,6 +915,7 @@ func Run(r *evid.Run) {
 	runTokens(r, bin)
 	runTLS(r)
 	runTLSBinaries(r, bin)
+	runTLSResumeBinary(r, bin)
 	r.Sample(map[string]any{"token": "config{tables-token=true maintenance-token=true} follower Maintenance.Reset authorization=prefix-of-right"})
 	r.Sample(map[string]any{"tls": "TLSInfo{TrustedCAFile=true ClientCertAuth=false allow=hostname} client rightCA/hostname-only-in-CN"})
 	r.Assume("crypto/tls and crypto/x509 are trusted; the probe never sends mutating calls with the right token (they share the interceptor path with List/Backup)")
